@@ -29,6 +29,8 @@ static int request(const char* line) {
   char c = 0;
   for (;;) { ssize_t r = read(fd, &c, 1); if (r == 1) break; if (r == 0) _exit(97); if (errno != EINTR) return -1; }
   if (c == 'K') return 0;
+  if (c == 'T') { errno = ETIMEDOUT; return -1; }   /* the simulator let the timeout of a timed wait fire */
+  if (c == 'A') { errno = EAGAIN; return -1; }
   errno = EINVAL; return -1;
 }
 
@@ -41,10 +43,12 @@ sem_t* sem_open(const char* name, int oflag, ...) {
 }
 int sem_wait(sem_t* s) { (void)s; return request("W\n"); }
 int sem_trywait(sem_t* s) { (void)s; return request("T\n"); }
-int sem_timedwait(sem_t* s, const struct timespec* t) { (void)s; (void)t; return request("W\n"); }
+/* timed waits: the simulator owns the clock; it may grant the semaphore or let the timeout fire at any time once the caller is blocked */
+int sem_timedwait(sem_t* s, const struct timespec* t) { (void)s; (void)t; return request("X\n"); }
+int sem_clockwait(sem_t* s, clockid_t c, const struct timespec* t) { (void)s; (void)c; (void)t; return request("X\n"); }
 int sem_post(sem_t* s) { (void)s; return request("P\n"); }
 int sem_close(sem_t* s) { (void)s; return request("C\n"); }
-int sem_unlink(const char* name) { (void)name; return request("U\n"); }
+int sem_unlink(const char* name) { char b[256]; snprintf(b, sizeof b, "U %s\n", name); return request(b); }
 int sem_getvalue(sem_t* s, int* v) { (void)s; if (v) *v = 0; return request("G\n"); }
 
 /* markers used by the quick-tier driver: section entry / exit and intermediate steps (each is a scheduling point) */
